@@ -76,6 +76,8 @@ def ring_stereo_family():
     out += ['C/C=C/CC/C=C/C', 'C/C=C/CC/C=C\\C', 'C/C=C\\CC/C=C\\C', 'C/C=C/C=C/C', 'C/C=C/C=C\\C', 'C/C=C\\C=C/C',
             'C[C@H](O)CC[C@H](O)C', 'C[C@H](O)CC[C@@H](O)C', 'C[C@H](O)[C@H](O)C', 'C[C@H](O)[C@@H](O)C', 'C[C@H](N)C(=O)O', 'CC=C=CC',
             'C[C@H](O)CC.C[C@@H](O)CC', 'F/C=C/F', 'F/C=C\\F', 'C[C@]12CC[C@H](CC1)C2']
+    # tri- and tetrasubstituted double bonds (every substituent slot of the sign table is used by some spelling)
+    out += ['F/C(Cl)=C(/Br)I', 'F/C(Cl)=C(\\Br)I', 'C/C(F)=C(/C)CC', 'CC/C(C)=C(/C)CO', 'C/C=C(/C)CC', 'C/C=C(\\C)CC', 'OC/C(C)=C(/CC)C(C)C']
     return out
 
 
